@@ -1534,6 +1534,8 @@ impl<'a> Cx<'a> {
         match e {
             Expr::Return(_) => Ok((self.do_stmt(e)?, Ty::Never)),
             Expr::If(i) if tail == Tail::Unit && matches!(&*i.cond, Expr::Let(_)) => Ok((self.do_stmt(e)?, Ty::Never)),
+            Expr::Assign(_) if tail == Tail::Unit => Ok((self.do_stmt(e)?, Ty::Never)),
+            Expr::Binary(b) if tail == Tail::Unit && is_assign_op(&b.op) => Ok((self.do_stmt(e)?, Ty::Never)),
             Expr::If(i) if !matches!(&*i.cond, Expr::Let(_)) => {
                 let (c, _) = self.expr(&i.cond)?;
                 let (t, tt) = self.do_block(&i.then_branch, tail)?;
